@@ -74,6 +74,15 @@ func AppendHazard(root reflect.Value) error {
 	walk(root, "")
 	sort.Slice(spans, func(i, j int) bool { return spans[i].lo < spans[j].lo })
 	for i, a := range spans {
+		// two lists whose elements occupy the same memory: writing through one changes the other
+		for _, b := range spans[i+1:] {
+			if b.lo >= a.live {
+				break
+			}
+			if b.lo < b.live && a.lo < a.live && a.path != b.path {
+				return fmt.Errorf("%s and %s share the memory of their elements: a write through one changes the other", a.path, b.path)
+			}
+		}
 		if a.live == a.capE {
 			continue
 		}
